@@ -105,8 +105,8 @@ def signed(rng, v):
 # op-signature-driven boundary augmentation (applied by check.py to the public-API ops of some streams)
 
 BOUNDARY = sorted({(1 << k) + d for k in (7, 8, 15, 16, 31, 32, 63, 64, 127, 128) for d in (-1, 0, 1)} | {0, 1, 2})
-AUGMENT_STREAMS = {"C01", "C02", "C03", "C05", "C07", "C08", "C11", "C13", "C19"}
-AUGMENT_SKIP = ("shl", "from_f", "to_f", "set_bit", "bit ", "monty_modpow", "plain_modpow", "high_bits")   # cost hazards, non-value arguments, hook ops with preconditions
+AUGMENT_STREAMS = {"C01", "C02", "C03", "C05", "C06", "C07", "C08", "C09", "C11", "C13", "C17", "C19"}
+AUGMENT_SKIP = (".de", "shl", "from_f", "to_f", "set_bit", "bit ", "monty_modpow", "plain_modpow", "high_bits")   # cost hazards, non-value arguments, hook ops with preconditions
 
 def _is_bigtok(t):
     import re
@@ -154,4 +154,126 @@ def augment_boundaries(lines, rng, per_op=48):
                     t[i] = wu(v)
             out.append(" ".join(t))
             cnt += 1
+    return out
+
+
+# ---------------------------------------------------------------------------------------------
+# cross-pollination: structured multi-digit operand families for every public-API op of the arithmetic streams
+
+def _parse_big(tok):
+    """(sign, value) of a limb token, or None"""
+    sg = 1
+    t = tok
+    if t[:1] in "+-0" and not (len(t) > 1 and t[1] in "0123456789abcdef," and t[0] == "0" and "," not in t and False):
+        if t[0] == "-":
+            sg, t = -1, t[1:]
+        elif t[0] == "+":
+            t = t[1:]
+        elif t == "0.":
+            return 0
+    if t == ".":
+        return 0
+    try:
+        v = 0
+        for i, d in enumerate(t.split(",")):
+            v += int(d, 16) << (64 * i)
+        return sg * v
+    except ValueError:
+        return None
+
+def structured_value(rng, n):
+    """an n-digit value (n >= 1) from a family that arithmetic special cases key on: all ones, low zero digits, sparse
+    digits, one bit, 2^k +- 1, upper half all ones / lower half 1, repeated digit, alternating 0 / MAX, top digit 1 or
+    2^63, middle zero run"""
+    k = rng.randrange(12)
+    ds = [rng.randrange(B) for _ in range(n)]
+    if k == 0:
+        ds = [MAX] * n
+    elif k == 1:
+        z = rng.randrange(1, n + 1) if n > 1 else 0
+        ds = [0] * min(z, n - 1) + ds[min(z, n - 1):]
+    elif k == 2:
+        ds = [d if rng.randrange(3) == 0 else 0 for d in ds]
+    elif k == 3:
+        return 1 << rng.randrange(64 * n - 64, 64 * n)
+    elif k == 4:
+        e = rng.randrange(max(1, 64 * n - 64), 64 * n)
+        return (1 << e) + rng.choice([-1, 1])
+    elif k == 5:
+        h = n // 2
+        ds = [1] + [0] * (h - 1) + [MAX] * (n - h) if h >= 1 else [MAX] * n
+    elif k == 6:
+        ds = [rng.choice([1, MAX, 1 << 63, 0x5555555555555555, rng.randrange(B)])] * n
+    elif k == 7:
+        ds = [(0 if i % 2 else MAX) for i in range(n)]
+    elif k == 8:
+        ds[-1] = rng.choice([1, 1 << 63, 2, 3, MAX])
+    elif k == 9 and n >= 3:
+        a = rng.randrange(1, n - 1); b = rng.randrange(a, n - 1)
+        ds = ds[:a] + [0] * (b - a + 1) + ds[b + 1:]
+    elif k == 10:
+        ds = [MAX] * (n - 1) + [rng.choice([1, MAX >> 1, MAX])]
+    if ds[-1] == 0:
+        ds[-1] = 1
+    return sum(d << (64 * i) for i, d in enumerate(ds))
+
+def augment_structured(lines, rng, per_op=40, max_digits=24):
+    """For every public-API op of the allow-listed streams: requests whose big operands come from (a) a pool harvested
+    from ALL requests of the run (operands designed for one op are fed to every other op), (b) `structured_value`
+    families, with related pairs (equal, +-1, small multiple, shifted by whole digits, one dividing the other) when the
+    op has two big operands.  Operand positions are inferred as in `augment_boundaries`."""
+    groups = {}
+    pool = set()
+    for l in lines:
+        t = l.split()
+        if len(t) < 3:
+            continue
+        for tok in t[2:]:
+            if ("," in tok) and _is_bigtok(tok) and tok.count(",") < max_digits:
+                v = _parse_big(tok)
+                if v:
+                    pool.add(abs(v))
+        if t[0] not in AUGMENT_STREAMS or not (t[1].startswith("u.") or t[1].startswith("i.")):
+            continue
+        if any(s in (t[1] + " ") for s in AUGMENT_SKIP) or ("pow" in t[1] and "modpow" not in t[1]) or "huge" in t[1]:
+            continue
+        groups.setdefault((t[0], t[1], len(t)), []).append(t)
+    pool = sorted(pool)
+    if len(pool) > 400:
+        pool = rng.sample(pool, 400)
+    out = []
+    for (stream, op, n), samples in sorted(groups.items()):
+        bigpos = []
+        for i in range(2, n):
+            col = [s[i] for s in samples]
+            if not all(_is_bigtok(c) for c in col):
+                continue
+            if any(("," in c) or c == "." or c == "0." or c[0] in "+-" for c in col):
+                bigpos.append(i)
+        if not bigpos or len(bigpos) > 3:
+            continue
+        signed_pos = {i for i in bigpos if any(s[i][:1] in "+-" or s[i] == "0." for s in samples)}
+        tmpl = samples[rng.randrange(len(samples))]
+        for _ in range(per_op):
+            t = list(tmpl)
+            vals = []
+            for j, i in enumerate(bigpos):
+                if pool and rng.randrange(2):
+                    v = pool[rng.randrange(len(pool))]
+                else:
+                    v = structured_value(rng, rng.choice([1, 2, 2, 3, 4, 5, 8, 9, 16, 17]))
+                if j >= 1 and rng.randrange(2):
+                    a = vals[0]
+                    v = rng.choice([a, a + 1, max(a - 1, 0), a * rng.choice([2, 3, 5, 1 << 64, (1 << 64) + 1, MAX]), a << (64 * rng.randrange(1, 3)),
+                                    a >> 64, a >> 1, a * v if v.bit_length() < 400 else a, a ^ 1, a | 1])
+                    if rng.randrange(4) == 0:
+                        vals[0], v = v, a               # the related value first
+                vals.append(v)
+            for j, i in enumerate(bigpos):
+                v = vals[j]
+                if i in signed_pos:
+                    t[i] = wi(-v if rng.randrange(2) else v)
+                else:
+                    t[i] = wu(v)
+            out.append(" ".join(t))
     return out
